@@ -20,13 +20,21 @@ import (
 // sit in pooled receive buffers. Each must still be parsed into its own lines: a buffer may go back to the pool only
 // when its datagram has been parsed, and never while the receiver reads into it. One processor, so that the pool hands
 // a released buffer straight back to the receiver.
-const maxUDP = 65507
 
 func TestUDPQueuedDatagrams(t *testing.T) {
 	defer runtime.GOMAXPROCS(runtime.GOMAXPROCS(1))
 	rapid.Check(t, func(t *rapid.T) {
 		batch := rapid.SampledFrom([]int{1, 1, 2, 8}).Draw(t, "receive-batch-size")
+		// one case in four: a unix datagram socket, whose datagrams can fill a receive buffer to its last byte (65535)
+		maxUDP, sender := 65507, "127.0.0.1"
 		u, err := rig.NewUDP("", false, 2, batch)
+		if rapid.IntRange(0, 3).Draw(t, "unix-datagram-socket") == 0 {
+			if u != nil {
+				u.Close()
+			}
+			maxUDP, sender = 65535, string(gostatsd.UnknownSource)
+			u, err = rig.NewUnixgram("", false, 2, batch)
+		}
 		if err != nil {
 			t.Skip("no loopback socket: " + err.Error())
 		}
@@ -45,7 +53,7 @@ func TestUDPQueuedDatagrams(t *testing.T) {
 				seq++
 				name := fmt.Sprintf("q%03d", seq)
 				line := fmt.Sprintf("%s:%d|c|#r:%d", name, seq, r)
-				want.AddMetric(&gostatsd.Metric{Name: name, Type: gostatsd.COUNTER, Value: float64(seq), Rate: 1, Tags: gostatsd.Tags{fmt.Sprintf("r:%d", r)}, Source: "127.0.0.1"})
+				want.AddMetric(&gostatsd.Metric{Name: name, Type: gostatsd.COUNTER, Value: float64(seq), Rate: 1, Tags: gostatsd.Tags{fmt.Sprintf("r:%d", r)}, Source: gostatsd.Source(sender)})
 				if rapid.IntRange(0, 3).Draw(t, "largest-datagram") == 0 {
 					// a datagram of the largest size UDP over IPv4 carries (65507 bytes): it fills its receive buffer almost to the end
 					var b strings.Builder
@@ -53,11 +61,11 @@ func TestUDPQueuedDatagrams(t *testing.T) {
 					for j := 0; b.Len() < maxUDP-40; j++ {
 						n := fmt.Sprintf("%s_%04d", name, j)
 						fmt.Fprintf(&b, "\n%s:1|c", n)
-						want.AddMetric(&gostatsd.Metric{Name: n, Type: gostatsd.COUNTER, Value: 1, Rate: 1, Source: "127.0.0.1"})
+						want.AddMetric(&gostatsd.Metric{Name: n, Type: gostatsd.COUNTER, Value: 1, Rate: 1, Source: gostatsd.Source(sender)})
 					}
 					last := name + "_last_" + strings.Repeat("z", maxUDP-b.Len()-len(name)-len("\n_last_:7|c"))
 					fmt.Fprintf(&b, "\n%s:7|c", last)
-					want.AddMetric(&gostatsd.Metric{Name: last, Type: gostatsd.COUNTER, Value: 7, Rate: 1, Source: "127.0.0.1"})
+					want.AddMetric(&gostatsd.Metric{Name: last, Type: gostatsd.COUNTER, Value: 7, Rate: 1, Source: gostatsd.Source(sender)})
 					line = b.String()
 					history = append(history, fmt.Sprintf("%s ... (%d bytes, last line %s:7|c)", line[:24], len(line), last))
 				} else {
